@@ -155,6 +155,5 @@ def main():
 
 
 if __name__ == '__main__':
-    assert plumpy.__file__.startswith('/tmp/seed3/C10/src'), plumpy.__file__
     main()
     sys.exit(0)
